@@ -1,1 +1,240 @@
-/-! C07 — property theorems (placeholder until the model exists). -/
+import EupsModel.Lemmas.CacheInv
+/-! C07 — answers served from the product cache equal the answers in the database files.
+Property theorems only; model `Model/Cache.lean` over `Model/Db.lean`, lemmas in `Lemmas/Agree.lean`
+(commutation) and `Lemmas/CacheInv.lean` (the invariant and its preservation).
+
+A *history* is any list of `WCmd`: processes of any user (each user has his own cache files) and flavor
+running any command, each optionally killed between the database update and the cache update of its k-th
+`Database` mutation, and deletions of cache files, in any order.  `viaCache w u f` is what a fresh process of
+user `u` and flavor `f` holds in memory after `Eups.__init__` (accepted cache files or rebuilt stacks);
+`w.db` is what the files say. -/
+namespace EupsModel.C07
+open EupsModel.Db EupsModel.Cache
+
+/-- **Commutation, per operation.**  If the in-memory stacks agree with the database on a (stack, flavor,
+product) slice, then after `addProduct` / `removeProduct` / `assignTag` / `unassignTag` they agree with the
+database after `Database.declare` / `undeclare` / `assignTag` / `unassignTag`. -/
+theorem C07_commute (e : Eff) (m db : Spec) (hdb : NoDangling db) (s : Nat) (f : Flav) (n : Name)
+    (h : AgreeOnN m db s f n) : AgreeOnN (applyMem e m) (applyDb e db) s f n :=
+  commute_all e m db hdb s f n h
+
+/-- On the pinned tree the commutation lemma is false for `removeProduct`: the tag of the removed version
+stays in the in-memory stack (D1, repaired). -/
+theorem C07_commute_fails_pinned :
+    let m : Spec := ⟨[⟨0, [112], [49], [76], ⟨0, []⟩, .default⟩, ⟨0, [112], [50], [76], ⟨0, []⟩, .default⟩],
+                     [⟨0, current, [112], [76], [49]⟩]⟩
+    (applyMemPinned (.undeclare 0 [112] [49] [76]) m).hasTag 0 current [112] [76] = true ∧
+    (applyDb (.undeclare 0 [112] [49] [76]) m).hasTag 0 current [112] [76] = false :=
+  commute_fails_pinned
+
+/-- **`CacheInv` holds after every history**: in particular every cache file of a stack of the path that is
+at least as new as a product directory agrees with the database on that product. -/
+theorem C07_cache_inv (nst : Nat) (dirs : List DirEnt) (tfs : List TFile) (h : List WCmd) :
+    CacheInv (runHistory (World.init nst dirs tfs) h) := history_inv nst dirs tfs h
+
+/-- **A cache file that the load rule accepts agrees with the files**, after every history, for every user,
+stack of the path and flavor (the fallback flavor's file too, when a process of that flavor reads it). -/
+theorem C07_accepted_cache_agrees (nst : Nat) (dirs : List DirEnt) (tfs : List TFile) (h : List WCmd) (cf : CacheFile)
+    (hc : cf ∈ (runHistory (World.init nst dirs tfs) h).caches) (hs : cf.stack < nst)
+    (ha : accepts (runHistory (World.init nst dirs tfs) h) cf = true) :
+    AgreeOn cf.c (runHistory (World.init nst dirs tfs) h).db cf.stack cf.flav := by
+  have hinv := history_inv nst dirs tfs h
+  have hn : (runHistory (World.init nst dirs tfs) h).nst = nst := history_nst _ h
+  exact accepts_agree hinv hc (by rw [hn]; exact hs) ha
+
+/-- **C07.**  After every history, what a fresh process of any user `u` and flavor `self` holds in memory after
+`Eups.__init__` — accepted cache files or rebuilt stacks — is what the files say, for every flavor the process can
+see (its native flavor and the fallback flavor), in every stack of the path; and it shows no declaration that the
+files do not hold. -/
+theorem C07_agree (nst : Nat) (dirs : List DirEnt) (tfs : List TFile) (h : List WCmd) (u : User) (self : Flav)
+    (s : Nat) (hs : s < (runHistory (World.init nst dirs tfs) h).nst) (f : Flav) (hf : f ∈ fallbacks self) :
+    AgreeOn (viaCache (runHistory (World.init nst dirs tfs) h) u self) (runHistory (World.init nst dirs tfs) h).db s f ∧
+    ∀ d ∈ (viaCache (runHistory (World.init nst dirs tfs) h) u self).decls,
+      d ∈ (runHistory (World.init nst dirs tfs) h).db.decls := by
+  obtain ⟨_, hv, hfb, hsub⟩ := load_inv (history_inv nst dirs tfs h) u self
+  exact ⟨hv s hs f (hfb s hs f hf), hsub⟩
+
+/-- **The four queries of the property**, any user, any stack of the path, any flavor `f` the querying process
+can see, after any history: *is (n, v) declared*, *where is it* (the declaration found: directory and table),
+*which tags does it carry*, *which version has tag t* — through the cache and through the files. -/
+theorem C07_queries_agree (nst : Nat) (dirs : List DirEnt) (tfs : List TFile) (h : List WCmd) (u : User) (self : Flav)
+    (s : Nat) (hs : s < (runHistory (World.init nst dirs tfs) h).nst) (f : Flav) (hf : f ∈ fallbacks self)
+    (n : Name) (v : Ver) (t : Tag) :
+    let w := runHistory (World.init nst dirs tfs) h
+    (viaCache w u self).hasDecl s n v f = w.db.hasDecl s n v f ∧
+    (viaCache w u self).findDecl s n v f = w.db.findDecl s n v f ∧
+    (∀ d : Decl, d.stack = s → d.flav = f → d.name = n →
+        ∀ t', t' ∈ (viaCache w u self).tagsOf d ↔ t' ∈ w.db.tagsOf d) ∧
+    (viaCache w u self).tagVer s t n f = w.db.tagVer s t n f := by
+  intro w
+  have hag := (C07_agree nst dirs tfs h u self s hs f hf).1 n
+  have hku := (history_inv nst dirs tfs h).dbinv.ku
+  refine ⟨hag.hasDecl v, findDecl_agree hag hku v, ?_, tagVer_agree hag hku t⟩
+  intro d h1 h2 h3 t'
+  simp only [Spec.tagsOf, List.mem_map, List.mem_filter]
+  constructor
+  · rintro ⟨r, ⟨hr, hp⟩, rfl⟩
+    have k := TagRec.pointsAt_iff.mp hp
+    exact ⟨r, ⟨(hag.2 r (k.1.trans h1) (k.2.2.1.trans h2) (k.2.1.trans h3)).mp hr, hp⟩, rfl⟩
+  · rintro ⟨r, ⟨hr, hp⟩, rfl⟩
+    have k := TagRec.pointsAt_iff.mp hp
+    exact ⟨r, ⟨(hag.2 r (k.1.trans h1) (k.2.2.1.trans h2) (k.2.1.trans h3)).mpr hr, hp⟩, rfl⟩
+
+/-! ### a missing, older or crash-orphaned cache is rebuilt, not believed -/
+
+/-- a cache directory in which a needed cache file is missing (the native flavor's or the fallback flavor's) is not
+accepted -/
+theorem tryCache_missing (w : World) (u : User) (self : Flav) (s : Nat)
+    (h : findCaches w u s (needed self) = none) : tryCache w u self s = none := by
+  unfold tryCache; simp [h]
+
+/-- a cache directory in which one of the needed cache files is older than a version file, chain file or product
+directory of the stack, or names a product the database does not have, is not accepted -/
+theorem tryCache_older (w : World) (u : User) (self : Flav) (s : Nat) (cfs : List CacheFile)
+    (h : findCaches w u s (needed self) = some cfs) (cf : CacheFile) (hcf : cf ∈ cfs) (hold : accepts w cf = false) :
+    tryCache w u self s = none := by
+  unfold tryCache
+  have : cfs.all (accepts w) = false := by
+    rw [Bool.eq_false_iff]
+    intro hall
+    have := List.all_eq_true.mp hall cf hcf
+    rw [hold] at this; cases this
+  simp [h, this]
+
+/-- when neither the user's cache directory nor the one inside `ups_db/` is accepted, the in-memory stack is rebuilt
+from the database (`refreshFromDatabase`) -/
+theorem C07_not_accepted_rebuilt (w : World) (u : User) (self : Flav) (s : Nat)
+    (h1 : tryCache w u self s = none) (h2 : tryCache w sysUser self s = none) :
+    (loadStack w u self s).view = snapshot w.db s := by
+  unfold loadStack; simp [h1, h2]
+
+/-- a needed cache file of the user is missing, and the cache directory inside `ups_db/` is not accepted either:
+rebuilt -/
+theorem C07_stale_cache_rebuilt_missing (w : World) (u : User) (self : Flav) (s : Nat)
+    (h : findCaches w u s (needed self) = none) (hsys : tryCache w sysUser self s = none) :
+    (loadStack w u self s).view = snapshot w.db s :=
+  C07_not_accepted_rebuilt w u self s (tryCache_missing w u self s h) hsys
+
+/-- one of the user's cache files is older than a version file, chain file or product directory of the stack, or
+names a product the database does not have, and the cache directory inside `ups_db/` is not accepted either:
+rebuilt -/
+theorem C07_stale_cache_rebuilt_older (w : World) (u : User) (self : Flav) (s : Nat) (cfs : List CacheFile)
+    (h : findCaches w u s (needed self) = some cfs) (cf : CacheFile) (hcf : cf ∈ cfs) (hold : accepts w cf = false)
+    (hsys : tryCache w sysUser self s = none) :
+    (loadStack w u self s).view = snapshot w.db s :=
+  C07_not_accepted_rebuilt w u self s (tryCache_older w u self s cfs h cf hcf hold) hsys
+
+/-- **The stack-wide cache.**  After any history, when the user's own cache directory is not accepted and the one
+inside `ups_db/` (`eups admin buildCache -A`) is: what is loaded is the content of the files that were validated —
+the stack-wide ones —, it agrees with the database files on every flavor the process can see, and nothing is
+written (the user's stale files stay as they are). -/
+theorem C07_stack_wide_cache_agrees (nst : Nat) (dirs : List DirEnt) (tfs : List TFile) (h : List WCmd) (u : User)
+    (self : Flav) (s : Nat) (hs : s < nst) (view : Spec)
+    (h1 : tryCache (runHistory (World.init nst dirs tfs) h) u self s = none)
+    (h2 : tryCache (runHistory (World.init nst dirs tfs) h) sysUser self s = some view) :
+    (loadStack (runHistory (World.init nst dirs tfs) h) u self s).view = view ∧
+    (loadStack (runHistory (World.init nst dirs tfs) h) u self s).w = runHistory (World.init nst dirs tfs) h ∧
+    ∀ f ∈ fallbacks self, AgreeOn view (runHistory (World.init nst dirs tfs) h).db s f := by
+  have hinv := history_inv nst dirs tfs h
+  have hn : (runHistory (World.init nst dirs tfs) h).nst = nst := history_nst _ h
+  generalize runHistory (World.init nst dirs tfs) h = w at hinv hn h1 h2
+  refine ⟨by unfold loadStack; simp [h1, h2], by unfold loadStack; simp [h1, h2], ?_⟩
+  intro f hf
+  exact (tryCache_inv hinv sysUser self (hn ▸ hs) h2).1 f ((mem_dedup _ f).mpr hf)
+
+/-- a rebuilt stack is the database: every flavor of the stack, exactly -/
+theorem C07_rebuilt_is_database (db : Spec) (hdb : NoDangling db) (s : Nat) (f : Flav) :
+    AgreeOn (snapshot db s) db s f := snapshot_agree hdb s f
+
+/-- crash-orphaned cache: after the `Database` mutation of an effect (the process dies before its cache
+update) no cache file of the stack is accepted as long as the product directory written to exists — whoever
+wrote the cache file, whenever -/
+theorem C07_crash_orphaned_cache_rejected (w : World) (h : CacheInv w) (e : Eff) (s : Nat) (n : Name)
+    (hk : effKey e = some (s, n)) (hw : effWrites w.db e = true)
+    (hex : ((applyDb e w.db).decls.any fun d => d.stack == s && d.name == n) = true)
+    (cf : CacheFile) (hc : cf ∈ (applyDbW w e).caches) (hs : cf.stack = s) :
+    accepts (applyDbW w e) cf = false := by
+  have hcaches : (applyDbW w e).caches = w.caches := by simp [applyDbW, hk, hw]
+  have htouch : (⟨s, n, w.now⟩ : Touch) ∈ (applyDbW w e).touch := by
+    simp only [applyDbW, hk, hw, if_true, hex]
+    exact mem_setTouch.mpr (Or.inl ⟨w.now, rfl, rfl⟩)
+  have hlt := h.cache_time cf (hcaches ▸ hc)
+  cases hacc : accepts (applyDbW w e) cf with
+  | false => rfl
+  | true =>
+    exfalso
+    simp only [accepts, Bool.and_eq_true] at hacc
+    have := (upToDate_iff _ _ _).mp hacc.1 _ htouch hs.symm
+    exact Nat.lt_irrefl _ (Nat.lt_of_le_of_lt this hlt)
+
+/-! ### witnesses -/
+
+def p : Name := [112]
+def L : Flav := [76]
+def dir (f : Flav) (v : Ver) : Dir := ⟨0, relDir f p v⟩
+def dirs : List DirEnt := [⟨dir L [49], p⟩, ⟨dir L [50], p⟩, ⟨dir generic [49], p⟩]
+def declareCmd (f : Flav) (v : Ver) : Cmd := .declare ⟨f, p, v, some (dir f v), none, .dflt, none, false, false, []⟩
+
+/-- the history of D1: `declare p 1` (becomes current), `declare p 2`, `undeclare p 1`, `declare p 1`, four
+processes of one user -/
+def staleTagHistory : List WCmd :=
+  [.run 1 (declareCmd L [49]) none, .run 1 (declareCmd L [50]) none,
+   .run 1 (.undeclare ⟨L, p, some [49], none, none, false, false, false, none⟩) none, .run 1 (declareCmd L [49]) none]
+
+/-- **D1 (repaired).**  With the pinned `removeVersion` the cache answers "p 1 is current" after that history
+while no chain file exists; with the repair the two agree. -/
+theorem C07_stale_tag_witness :
+    let wp := staleTagHistory.foldl stepPinned (World.init 1 dirs)
+    let wf := runHistory (World.init 1 dirs) staleTagHistory
+    ((viaCache wp 1 L).tagVer 0 current p L = some [49] ∧ wp.db.tagVer 0 current p L = none) ∧
+    ((viaCache wf 1 L).tagVer 0 current p L = none ∧ wf.db.tagVer 0 current p L = none) := by decide
+
+/-- **D16 (repaired).**  On the pinned tree — fallback flavors installed after the cache was read, `save` of the
+native flavor only — `declare p 1` by a Linux process, `declare p 1` by a generic process, one Linux query (it
+rebuilds and saves both flavors): the next fresh Linux process accepts the cache, loads the native flavor only and
+does not see the `generic` declaration that the files hold.  With the repair it loads both and sees it. -/
+theorem C07_fallback_flavor_witness :
+    let h : List WCmd := [.run 1 (declareCmd L [49]) none, .run 1 (declareCmd generic [49]) none, .run 1 (.query L) none]
+    let wp := h.foldl stepPinnedD16 (World.init 1 dirs)
+    let wf := runHistory (World.init 1 dirs) h
+    ((viaCachePinnedD16 wp 1 L).hasDecl 0 p [49] generic = false ∧ wp.db.hasDecl 0 p [49] generic = true ∧
+      (loadPinned wp 1 L).2.1 = [(0, [L])]) ∧
+    ((viaCache wf 1 L).hasDecl 0 p [49] generic = true ∧ wf.db.hasDecl 0 p [49] generic = true ∧
+      (load wf 1 L).2.1 = [(0, [L, generic])]) := by decide
+
+/-- the load rule with the directory argument of `reload` lost (seeded change C07-m3): the cache directory inside
+`ups_db/` is validated, the user's own files — just found not acceptable — are what is read -/
+def loadStackWrongDir (w : World) (u : User) (self : Flav) (s : Nat) : Spec :=
+  match tryCache w u self s with
+  | some view => view
+  | none =>
+    match tryCache w sysUser self s, findCaches w u s (needed self) with
+    | some _, some mine => unionAll (mine.map (·.c))
+    | some view, none => view
+    | none, _ => snapshot w.db s
+
+/-- **The validated files are the ones to load** (negation witness for the rule above).  User 1 declares `p 1`
+(current), user 2 declares `p 2`, `eups admin buildCache -A` refreshes the cache inside `ups_db/`: user 1's own cache
+is older than the database, the stack-wide one is accepted.  The model's rule answers "p 2 is declared" as the files
+do; validating the stack-wide files and reading user 1's does not. -/
+theorem C07_validated_directory_is_loaded_witness :
+    let w := runHistory (World.init 1 dirs) [.run 1 (declareCmd L [49]) none, .run 2 (declareCmd L [50]) none, .adminBuild 2 L]
+    (tryCache w 1 L 0 = none ∧ (tryCache w sysUser L 0).isSome = true) ∧
+    ((loadStack w 1 L 0).view.hasDecl 0 p [50] L = true ∧ w.db.hasDecl 0 p [50] L = true) ∧
+    (loadStackWrongDir w 1 L 0).hasDecl 0 p [50] L = false := by decide
+
+/-! ### non-vacuity -/
+
+/-- the hypotheses of `C07_accepted_cache_agrees` are met by real cache files: after `declare p 1` the user's Linux
+and generic caches of stack 0 exist and are accepted -/
+example :
+    let w := runHistory (World.init 1 dirs) [.run 1 (declareCmd L [49]) none]
+    (w.caches.any fun cf => cf.stack == 0 && accepts w cf) = true := by decide
+
+/-- a crash leaves the orphaned cache rejected: `declare p 1`, then `declare p 2` killed after
+`Database.declare`: the cache of stack 0 is not accepted, and the rebuilt view holds both versions -/
+example :
+    let w := runHistory (World.init 1 dirs) [.run 1 (declareCmd L [49]) none, .run 1 (declareCmd L [50]) (some 1)]
+    (w.caches.all fun cf => !(accepts w cf)) = true ∧ (viaCache w 1 L).hasDecl 0 p [50] L = true := by decide
+
+end EupsModel.C07
